@@ -127,7 +127,7 @@ package keeper
 //@        (pT(ctx, operator, assetID) == 0 && pS(ctx, operator, assetID) != 0) ||
 //@        (pT(ctx, operator, assetID) != 0 && shares_from_tokens(pS(ctx, operator, assetID), val(amount), pT(ctx, operator, assetID)) > delShare(ctx, stakerID, assetID, accstr(operator))) ||
 //@        (pT(ctx, operator, assetID) == 0 && 0 > delShare(ctx, stakerID, assetID, accstr(operator))))
-//@   ensures[C02.vua.bound] err == nil ==> !isnil(share) && val(share) <= delShare(ctx, stakerID, assetID, accstr(operator))
+//@   ensures[C02.vua.bound,C09.vua.bound] err == nil ==> !isnil(share) && val(share) <= delShare(ctx, stakerID, assetID, accstr(operator))
 //@   ensures[C02.vua.dust]  err == nil && pT(ctx, operator, assetID) != 0 ==>
 //@        (val(share) == delShare(ctx, stakerID, assetID, accstr(operator)) ||
 //@         (val(share) == shares_from_tokens(pS(ctx, operator, assetID), val(amount), pT(ctx, operator, assetID)) &&
@@ -183,11 +183,16 @@ package keeper
 //@   ensures[C02.dslfo.err]  (err != nil) <==> (old(get(ctx, "delegation", slKey(operator, assetID))) == nil)
 
 // Staker list maintenance: frame only (list content is not specified here)
+// C02 (the delegators listed for an operator and asset are listed once each): a staker that is already anywhere in the
+// list - first slot included - is not appended again; one that is not is appended at the end, the rest of the list as it was.
 //@ func (*Keeper).AppendStakerForOperator
 //@   modifies get(ctx, "delegation", slKey(operator, assetID))
 //@   ensures[C09.asfo.noerr] err == nil
+//@   before[C02.asfo.last] prefix.Store).Set requires len(stakers.Stakers) >= 1 && stakers.Stakers[len(stakers.Stakers) - 1] == stakerID
+//@   before[C02.asfo.once] prefix.Store).Set requires forall(i, 0, len(stakers.Stakers) - 1, stakers.Stakers[i] != stakerID)
 //@ loop #1
-//@   invariant true
+//@   invariant state(ctx) == old(state(ctx)) && -1 <= rangeindex && rangeindex < len(stakers.Stakers)
+//@   invariant[C02.asfo.once] forall(i, 0, rangeindex + 1, stakers.Stakers[i] != stakerID)
 
 //@ func (*Keeper).DeleteStakerForOperator
 //@   modifies get(ctx, "delegation", slKey(operator, assetID))
